@@ -1,6 +1,7 @@
 from __future__ import annotations
 
 import contextlib
+import functools
 import itertools
 import operator
 import os
@@ -1017,10 +1018,46 @@ class ReadParquetPyarrowFS(ReadParquet):
                 ds = self._dataset_info["dataset"]
             else:
                 ds = self._dataset_info["dataset"]._dataset
-            return np.array(
-                list(ds.get_fragments(filter=pq.filters_to_expression(self.filters)))
-            )
+            return np.array(list(ds.get_fragments(filter=self._filter_expression)))
         return np.array(self._dataset_info["fragments"])
+
+    @cached_property
+    def _filter_expression(self):
+        """``filters`` as a pyarrow expression that selects the rows the same
+        predicate selects in memory.
+
+        pyarrow evaluates ``null != value`` to null and drops the row.  pandas
+        keeps it (``NaN != value`` is True) unless the column is read into a
+        dtype that propagates ``pd.NA``.
+        """
+        if self.filters is None:
+            return None
+        schema = self._dataset_info["schema"]
+        mapper = _determine_type_mapper(
+            user_types_mapper=(self.arrow_to_pandas or {}).get("types_mapper"),
+            dtype_backend=self.kwargs.get("dtype_backend"),
+            pyarrow_strings_enabled=self.pyarrow_strings_enabled,
+        )
+
+        def propagates_na(col):
+            if mapper is None or schema.get_field_index(col) < 0:
+                return False
+            dtype = mapper(schema.field(col).type)
+            return getattr(dtype, "na_value", None) is pd.NA
+
+        def convert(col, op, val):
+            expr = pq.filters_to_expression([(col, op, val)])
+            if op == "!=" and not propagates_na(col):
+                expr = expr | pa_ds.field(col).is_null()
+            return expr
+
+        return functools.reduce(
+            operator.or_,
+            (
+                functools.reduce(operator.and_, (convert(*pred) for pred in conj))
+                for conj in _DNF(self.filters).to_list_tuple()
+            ),
+        )
 
     @property
     def _fusion_compression_factor(self):
@@ -1050,7 +1087,7 @@ class ReadParquetPyarrowFS(ReadParquet):
             (
                 ReadParquetPyarrowFS._fragment_to_table,
                 FragmentWrapper(self.fragments[index]),
-                self.filters,
+                self._filter_expression,
                 columns,
                 schema,
             ),
